@@ -101,6 +101,8 @@ pub enum LineKind {
 pub struct Rendered {
     pub text: String,
     /// 1-based physical line number of the corrupted token, if any
+    /// number of count lines (all), of entry-count lines, of value lines: the targets of the one-token corruptions
+    pub kinds: (usize, usize, usize),
     pub corrupt_line: Option<usize>,
     /// the error may be reported at the corrupted line or at any later line (a count that promises more entries
     /// than the file has lines is noticed where the entries stop)
@@ -386,7 +388,12 @@ impl QpModel {
                 text.push_str(nl);
             }
         }
-        Rendered { text, corrupt_line, corrupt_line_is_lower_bound, last_required_start, n_lines: lines.len() }
+        let kinds = (
+            lines.iter().filter(|(_, k)| matches!(*k, LineKind::Count | LineKind::EntryCount)).count(),
+            lines.iter().filter(|(_, k)| *k == LineKind::EntryCount).count(),
+            lines.iter().filter(|(_, k)| *k == LineKind::Value).count(),
+        );
+        Rendered { text, kinds, corrupt_line, corrupt_line_is_lower_bound, last_required_start, n_lines: lines.len() }
     }
 }
 
